@@ -269,6 +269,13 @@ func GenExifRec(r *core.Rng, o RecOpts) *ExifRec {
 			continue
 		}
 		n := r.Pick(1, 1, 2, 2, 3)
+		huge := r.Chance(1, 30)
+		if huge {
+			// an image of more than a thousand strips: the table is longer than the 4 KiB window a
+			// value is read through; what is reported for it is left open, everything stored behind
+			// it must still be reported
+			n = r.Pick(1025, 1100, 2049, 3000)
+		}
 		first := uint32(0)
 		if r.Bool() {
 			vs := make([]uint16, n)
@@ -286,6 +293,9 @@ func GenExifRec(r *core.Rng, o RecOpts) *ExifRec {
 			rec.IFD0.Add(f.tag, Long(vs...))
 		}
 		u(f.key, uint64(first))
+		if huge {
+			e.Any[f.key] = true
+		}
 	}
 	if has() || o.NikonBigNote {
 		mk := randText(r, o)
